@@ -44,7 +44,7 @@ fn check_cubic<T: Comp>(ctrl: &[Vec<f32>; 4], r: &mut Report) {
     let c = CubicBezier(pts.clone());
     let pf: [Vec<f64>; 4] = [pts[0].comps(), pts[1].comps(), pts[2].comps(), pts[3].comps()];
     let scale = pf.iter().flatten().fold(1.0f64, |m, x| m.max(x.abs()));
-    let tol = 1e-4 * scale;
+    let tol = 1e-5 * scale;
     let case = |t: f32| obj! {"kind" => "cubic", "type" => T::NAME, "ctrl" => J::Arr(ctrl.iter().map(|p| J::Arr(p.iter().map(|x| fbits(*x)).collect())).collect()), "t" => fbits(t)};
     let key = |cl: &str, t: f32| format!("{cl}|{}|{ctrl:?}|t={t:e}", T::NAME);
     for t in ts() {
@@ -56,11 +56,13 @@ fn check_cubic<T: Comp>(ctrl: &[Vec<f32>; 4], r: &mut Report) {
             let want = if t <= 0.0 { &pts[0] } else { &pts[3] };
             if &e != want || &fe != want { r.violation(key("cubic-ends", t), format!("t={t}: eval={e:?} fast_eval={fe:?}, expected control point {want:?} exactly"), case(t)); }
             let tc = if t <= 0.0 { 0.0 } else { 1.0 };
-            if maxdiff(&T::dcomps(&tg), &dbern(&pf, tc)) > 10.0 * tol { r.violation(key("cubic-tangent-ends", t), format!("tangent({t}) = {:?}, expected derivative at {tc}: {:?}", T::dcomps(&tg), dbern(&pf, tc)), case(t)); }
+            r.margin("cubic-tangent", maxdiff(&T::dcomps(&tg), &dbern(&pf, tc)), 3.0 * tol);
+            if maxdiff(&T::dcomps(&tg), &dbern(&pf, tc)) > 3.0 * tol { r.violation(key("cubic-tangent-ends", t), format!("tangent({t}) = {:?}, expected derivative at {tc}: {:?}", T::dcomps(&tg), dbern(&pf, tc)), case(t)); }
             continue;
         }
         let want = bern(&pf, t as f64);
         let (de, dfe) = (maxdiff(&e.comps(), &want), maxdiff(&fe.comps(), &want));
+        r.margin("cubic-value", de.max(dfe), tol);
         if de > tol || dfe > tol {
             r.violation(key("cubic-value", t), format!("t={t}: eval={e:?} (err {de:.3e}) fast_eval={fe:?} (err {dfe:.3e}), Bernstein {want:?}, tol {tol:.1e}"), case(t));
         }
@@ -72,7 +74,8 @@ fn check_cubic<T: Comp>(ctrl: &[Vec<f32>; 4], r: &mut Report) {
             }
         }
         let dw = dbern(&pf, t as f64);
-        if maxdiff(&T::dcomps(&tg), &dw) > 10.0 * tol { r.violation(key("cubic-tangent", t), format!("tangent({t}) = {:?}, derivative {dw:?}", T::dcomps(&tg)), case(t)); } else { r.nontrivial(); }
+        r.margin("cubic-tangent", maxdiff(&T::dcomps(&tg), &dw), 3.0 * tol);
+        if maxdiff(&T::dcomps(&tg), &dw) > 3.0 * tol { r.violation(key("cubic-tangent", t), format!("tangent({t}) = {:?}, derivative {dw:?}", T::dcomps(&tg)), case(t)); } else { r.nontrivial(); }
     }
 }
 
@@ -98,6 +101,7 @@ fn check_tangent_translated(i: u64, r: &mut Report) {
         let (Ok(t1), Ok(t2)) = (caught(|| c1.tangent(t)), caught(|| c2.tangent(t))) else { r.violation(format!("cubic-panic|translated|{base:?}+{off}|t={t}"), "tangent panicked".into(), case()); return; };
         let (d1, d2) = (dbern(&pf1, t as f64), dbern(&pf2, t as f64));
         let e = (t1 as f64 - d1[0]).abs().max((t2.x() as f64 - d2[0]).abs()).max((t2.y() as f64 - d2[1]).abs());
+        r.margin("cubic-tangent-translated", e, 1e-4 * extent);
         if e > 1e-4 * extent { r.violation(format!("cubic-tangent|translated|{base:?}+{off}|t={t}"), format!("control points {base:?} + {off}: tangent({t}) = {t1} / {:?}, derivative {} / {:?} (error {e:.3e}, curve extent {extent})", t2.0, d1[0], d2), case()); return; }
     }
     r.nontrivial();
@@ -113,7 +117,7 @@ fn check_spline<T: Comp>(n: usize, seed: usize, r: &mut Report) {
     let s = BezierSpline::new(&pts);
     let pf: Vec<Vec<f64>> = pts.iter().map(|p| p.comps()).collect();
     let scale = pf.iter().flatten().fold(1.0f64, |m, x| m.max(x.abs()));
-    let tol = 1e-3 * scale;
+    let tol = 3e-4 * scale;
     let case = |t: f32| obj! {"kind" => "spline", "type" => T::NAME, "n" => n, "seed" => seed, "t" => fbits(t)};
     let key = |cl: &str, t: f32| format!("{cl}|{}|n={n}|seed={seed}|t={t:e}", T::NAME);
     let seg_ref = |t: f64| -> Vec<f64> {
@@ -135,6 +139,7 @@ fn check_spline<T: Comp>(n: usize, seed: usize, r: &mut Report) {
         }
         let want = seg_ref(t as f64);
         let d = maxdiff(&e.comps(), &want);
+        r.margin("spline-value", d, tol);
         if d > tol { r.violation(key("spline-value", t), format!("eval({t}) = {e:?}, owning cubic gives {want:?} (err {d:.3e}, tol {tol:.1e})"), case(t)); } else { r.nontrivial(); }
     }
     // joins: passes through every third control point; left/right limits agree
@@ -243,8 +248,8 @@ fn run_spline(cfg: &Cfg) -> ! {
     }
     rep.sample(0, || obj! {"cubic_f32_ctrl" => vec![0.0f32, 3.0, -1000.0, 1e-3], "t" => "k/64, <0, >1, NaN", "spline" => "n=7 segments, t=3/7 +- ulp", "approximate_thresholds" => vec![1.0f32, 0.1, 0.01, 1e-4, 0.0, -1.0]});
     rep.finish(cfg, "exploration",
-        "cubic Beziers: all 7^4 scalar control polygons and a pooled family for Vec2/Vec3/Point2/Color3f x t in {k/64} + {<0, -0, >1, NaN, +-inf, near-1}: eval and fast_eval vs f64 Bernstein (1e-4 scale), exact end points at and beyond the ends, bounding box, tangent vs derivative (also for 256 dyadic polygons translated by 256, 65536 and -2^20, judged relative to the curve's own extent); splines with 1..8 segments x control polygons x t lattice incl. k/n and k/n +- 1 ulp: owning cubic, through every third control point, join continuity; approximate() with thresholds from coarse to 0 and negative (forces the depth bound) and with one-sided criteria on the signed error vector q - q': endpoints exact, points are curve points at increasing dyadic parameters, every piece met the criterion or sits at depth 10+log2(len). non-trivial = interior parameter judged / polyline verified.",
-        &["tolerances 1e-4 (cubic) and 1e-3 (spline) relative to the largest control magnitude", "approximate(): first compared with an independent re-run of the bisection schedule; on mismatch a schedule-agnostic check decides"])
+        "cubic Beziers: all 7^4 scalar control polygons and a pooled family for Vec2/Vec3/Point2/Color3f x t in {k/64} + {<0, -0, >1, NaN, +-inf, near-1}: eval and fast_eval vs f64 Bernstein (1e-5 scale), exact end points at and beyond the ends, bounding box, tangent vs derivative (also for 256 dyadic polygons translated by 256, 65536 and -2^20, judged relative to the curve's own extent); splines with 1..8 segments x control polygons x t lattice incl. k/n and k/n +- 1 ulp: owning cubic, through every third control point, join continuity; approximate() with thresholds from coarse to 0 and negative (forces the depth bound) and with one-sided criteria on the signed error vector q - q': endpoints exact, points are curve points at increasing dyadic parameters, every piece met the criterion or sits at depth 10+log2(len). non-trivial = interior parameter judged / polyline verified.",
+        &["tolerances 1e-5 (cubic value; 3e-5 tangent) and 3e-4 (spline) relative to the largest control magnitude", "approximate(): first compared with an independent re-run of the bisection schedule; on mismatch a schedule-agnostic check decides"])
 }
 
 // ------------------------------------------------------------------ C18
@@ -273,6 +278,7 @@ fn check_angle_impl(deg: f64, r: &mut Report) {
         }
         // trig
         let (s, c) = a.sin_cos();
+        r.margin("sin-cos-identity", ((s as f64).powi(2) + (c as f64).powi(2) - 1.0).abs(), 1e-6); r.margin("sin-cos-vs-f64", ((s as f64) - (a.to_rads() as f64).sin()).abs().max(((c as f64) - (a.to_rads() as f64).cos()).abs()), 5e-7);
         if s != a.sin() || c != a.cos() || ((s as f64).powi(2) + (c as f64).powi(2) - 1.0).abs() > 1e-6 || ((s as f64) - (a.to_rads() as f64).sin()).abs() > 5e-7 || ((c as f64) - (a.to_rads() as f64).cos()).abs() > 5e-7 {
             r.violation(key("sin-cos"), format!("degs({d}): sin_cos=({s},{c}) sin={} cos={}", a.sin(), a.cos()), case());
         }
@@ -342,11 +348,13 @@ fn check_vec2(x: f32, y: f32, r: &mut Report) {
     let p = match caught(|| v.to_polar()) { Ok(p) => p, Err(e) => { r.violation(key("to_polar-panic"), e, case()); return; } };
     let len = ((x as f64).powi(2) + (y as f64).powi(2)).sqrt();
     let az = p.az().to_rads() as f64;
-    if ((p.r() as f64) - len).abs() > 1e-4 * len { r.violation(key("polar-radius"), format!("to_polar().r() = {}, length {len}", p.r()), case()); }
+    r.margin("polar-radius", ((p.r() as f64) - len).abs(), 5e-6 * len); r.margin("polar-az", circ_diff(az, (y as f64).atan2(x as f64)), 5e-6);
+    if ((p.r() as f64) - len).abs() > 5e-6 * len { r.violation(key("polar-radius"), format!("to_polar().r() = {}, length {len}", p.r()), case()); }
     if !(az >= -std::f64::consts::PI - 1e-6 && az <= std::f64::consts::PI + 1e-6) { r.violation(key("polar-az-range"), format!("azimuth {az} outside [-pi,pi]"), case()); }
-    if circ_diff(az, (y as f64).atan2(x as f64)) > 1e-4 { r.violation(key("polar-az"), format!("({x},{y}).to_polar().az() = {az}, atan2 = {}", (y as f64).atan2(x as f64)), case()); }
+    if circ_diff(az, (y as f64).atan2(x as f64)) > 5e-6 { r.violation(key("polar-az"), format!("({x},{y}).to_polar().az() = {az}, atan2 = {}", (y as f64).atan2(x as f64)), case()); }
     let back = p.to_cart();
-    if ((back.x() as f64 - x as f64).abs()).max((back.y() as f64 - y as f64).abs()) > 1e-4 * len { r.violation(key("polar-roundtrip"), format!("({x},{y}) -> {p:?} -> {back:?}"), case()); } else { r.nontrivial(); }
+    r.margin("polar-roundtrip", ((back.x() as f64 - x as f64).abs()).max((back.y() as f64 - y as f64).abs()), 5e-6 * len);
+    if ((back.x() as f64 - x as f64).abs()).max((back.y() as f64 - y as f64).abs()) > 5e-6 * len { r.violation(key("polar-roundtrip"), format!("({x},{y}) -> {p:?} -> {back:?}"), case()); } else { r.nontrivial(); }
 }
 
 fn check_vec3(x: f32, y: f32, z: f32, r: &mut Report) {
@@ -357,13 +365,16 @@ fn check_vec3(x: f32, y: f32, z: f32, r: &mut Report) {
     let s = match caught(|| v.to_spherical()) { Ok(p) => p, Err(e) => { r.violation(key("to_spherical-panic"), e, case()); return; } };
     let len = ((x as f64).powi(2) + (y as f64).powi(2) + (z as f64).powi(2)).sqrt();
     let (az, alt) = (s.az().to_rads() as f64, s.alt().to_rads() as f64);
-    if ((s.r() as f64) - len).abs() > 1e-4 * len { r.violation(key("spherical-radius"), format!("r = {}, length {len}", s.r()), case()); }
+    r.margin("spherical-radius", ((s.r() as f64) - len).abs(), 5e-6 * len);
+    if ((s.r() as f64) - len).abs() > 5e-6 * len { r.violation(key("spherical-radius"), format!("r = {}, length {len}", s.r()), case()); }
     if !(az.abs() <= std::f64::consts::PI + 1e-6) || !(alt.abs() <= std::f64::consts::FRAC_PI_2 + 1e-6) { r.violation(key("spherical-range"), format!("az {az} alt {alt} out of range"), case()); }
     let ealt = (y as f64).atan2(((x as f64).powi(2) + (z as f64).powi(2)).sqrt());
-    if (alt - ealt).abs() > 1e-4 || ((x != 0.0 || z != 0.0) && circ_diff(az, (z as f64).atan2(x as f64)) > 1e-4) { r.violation(key("spherical-angles"), format!("({x},{y},{z}): az {az} alt {alt}; expected az {} alt {ealt}", (z as f64).atan2(x as f64)), case()); }
+    r.margin("spherical-alt", (alt - ealt).abs(), 5e-6); if x != 0.0 || z != 0.0 { r.margin("spherical-az", circ_diff(az, (z as f64).atan2(x as f64)), 5e-6); }
+    if (alt - ealt).abs() > 5e-6 || ((x != 0.0 || z != 0.0) && circ_diff(az, (z as f64).atan2(x as f64)) > 5e-6) { r.violation(key("spherical-angles"), format!("({x},{y},{z}): az {az} alt {alt}; expected az {} alt {ealt}", (z as f64).atan2(x as f64)), case()); }
     let b = s.to_cart();
     let d = (b.x() as f64 - x as f64).abs().max((b.y() as f64 - y as f64).abs()).max((b.z() as f64 - z as f64).abs());
-    if d > 1e-4 * len { r.violation(key("spherical-roundtrip"), format!("({x},{y},{z}) -> {s:?} -> {b:?}"), case()); } else { r.nontrivial(); }
+    r.margin("spherical-roundtrip", d, 5e-6 * len);
+    if d > 5e-6 * len { r.violation(key("spherical-roundtrip"), format!("({x},{y},{z}) -> {s:?} -> {b:?}"), case()); } else { r.nontrivial(); }
 }
 
 fn check_polar_first(rr: f32, azd: f32, altd: f32, r: &mut Report) {
@@ -374,16 +385,20 @@ fn check_polar_first(rr: f32, azd: f32, altd: f32, r: &mut Report) {
     let c = p.to_cart();
     // Cartesian components against f64 trigonometry of the very angle stored (many revolutions included)
     let a64 = p.az().to_rads() as f64;
+    r.margin("polar-to-cart", ((c.x() as f64 - rr as f64 * a64.cos()).abs()).max((c.y() as f64 - rr as f64 * a64.sin()).abs()), 2e-6 * rr as f64);
     if ((c.x() as f64 - rr as f64 * a64.cos()).abs()).max((c.y() as f64 - rr as f64 * a64.sin()).abs()) > 2e-6 * rr as f64 { r.violation(key("polar-to-cart"), format!("polar({rr},{azd}deg).to_cart() = {c:?}, f64: ({}, {})", rr as f64 * a64.cos(), rr as f64 * a64.sin()), case()); }
     let q = c.to_polar();
-    if ((q.r() - rr).abs() as f64) > 1e-4 * rr as f64 || circ_diff(q.az().to_rads() as f64, p.az().to_rads() as f64) > 1e-4 { r.violation(key("polar-inverse"), format!("polar({rr},{azd}deg) -> {c:?} -> {q:?}"), case()); }
+    r.margin("polar-inverse-r", (q.r() - rr).abs() as f64, 5e-6 * rr as f64); r.margin("polar-inverse-az", circ_diff(q.az().to_rads() as f64, p.az().to_rads() as f64), 5e-6);
+    if ((q.r() - rr).abs() as f64) > 5e-6 * rr as f64 || circ_diff(q.az().to_rads() as f64, p.az().to_rads() as f64) > 5e-6 { r.violation(key("polar-inverse"), format!("polar({rr},{azd}deg) -> {c:?} -> {q:?}"), case()); }
     if altd.abs() < 90.0 {
         let s = spherical(rr, degs(azd), degs(altd));
         let (sc, l64) = (s.to_cart(), s.alt().to_rads() as f64);
         let want = [rr as f64 * a64.cos() * l64.cos(), rr as f64 * l64.sin(), rr as f64 * a64.sin() * l64.cos()];
+        r.margin("spherical-to-cart", (0..3).map(|k| (sc.0[k] as f64 - want[k]).abs()).fold(0.0, f64::max), 2e-6 * rr as f64);
         if (0..3).any(|k| (sc.0[k] as f64 - want[k]).abs() > 2e-6 * rr as f64) { r.violation(key("spherical-to-cart"), format!("spherical({rr},{azd},{altd}).to_cart() = {sc:?}, f64: {want:?}"), case()); }
         let t = s.to_cart().to_spherical();
-        if ((t.r() - rr).abs() as f64) > 1e-4 * rr as f64 || circ_diff(t.az().to_rads() as f64, s.az().to_rads() as f64) > 1e-4 || ((t.alt().to_rads() - s.alt().to_rads()).abs() as f64) > 1e-4 { r.violation(key("spherical-inverse"), format!("spherical({rr},{azd},{altd}) -> {:?} -> {t:?}", s.to_cart()), case()); } else { r.nontrivial(); }
+        r.margin("spherical-inverse-r", (t.r() - rr).abs() as f64, 5e-6 * rr as f64); r.margin("spherical-inverse-az", circ_diff(t.az().to_rads() as f64, s.az().to_rads() as f64), 5e-6); r.margin("spherical-inverse-alt", (t.alt().to_rads() - s.alt().to_rads()).abs() as f64, 5e-6);
+        if ((t.r() - rr).abs() as f64) > 5e-6 * rr as f64 || circ_diff(t.az().to_rads() as f64, s.az().to_rads() as f64) > 5e-6 || ((t.alt().to_rads() - s.alt().to_rads()).abs() as f64) > 5e-6 { r.violation(key("spherical-inverse"), format!("spherical({rr},{azd},{altd}) -> {:?} -> {t:?}", s.to_cart()), case()); } else { r.nontrivial(); }
     }
     if p.r() != rr || p.az().to_rads() != degs(azd).to_rads() { r.violation(key("polar-accessors"), "r()/az() do not return the constructor arguments".into(), case()); }
 }
